@@ -74,9 +74,9 @@ macro_rules! arcs_n {
 }
 //@ C08 quick | try_from on 2 arcs: every (u32|parse error) for each arc; first<=2, second<=39 else refused
 arcs_n!(arcs_2, "0.0", 2);
-//@ C08 quick | try_from on 3 arcs: every (u32|parse error) per arc; encoding == canonical base-128
+//@ C08,C15 quick | try_from on 3 arcs: every (u32|parse error) per arc; encoding == canonical base-128
 arcs_n!(arcs_3, "0.0.0", 3);
-//@ C08 quick | try_from on 4 arcs: every (u32|parse error) per arc
+//@ C08,C15 quick | try_from on 4 arcs: every (u32|parse error) per arc
 arcs_n!(arcs_4, "0.0.0.0", 4);
 //@ C08 thorough | try_from on 5 arcs: every (u32|parse error) per arc
 arcs_n!(arcs_5, "0.0.0.0.0", 5);
